@@ -149,7 +149,39 @@ def build_renaming(rng, doc, vals):
         add(tp.get("name"))
     for f in M.files(doc):
         add(f.get("name"))
+    # steps and environments are named by free text: each distinct name gets a fresh name of the same length (so no
+    # length limit is crossed), letters only (so no character-set rule is); equal names stay equal, different stay different
+    def fresh_text(n, used):
+        for _ in range(200):
+            t = "".join(rng.choice("ABCDEFGHJKLMNPQRSTUVWXYZabcdefghijkmnpqrstuvwxyz") for _ in range(len(n)))
+            if t not in used and t not in text:
+                used.add(t)
+                return t
+        return n
+    used = set()
+    smap, emap = {}, {}
+
+    def renamable(n):
+        # only names that are fine as names: a name that breaks the length / character rule must keep breaking it
+        return isinstance(n, str) and 1 <= len(n) <= 64 and not any(ord(ch) < 32 or 127 <= ord(ch) < 160 for ch in n)
+    for st in M.steps(doc):
+        n = st.get("name")
+        if renamable(n) and n not in smap:
+            smap[n] = fresh_text(n, used)
+    for e in M.envs(doc):
+        n = e.get("name")
+        if renamable(n) and n not in emap:
+            emap[n] = fresh_text(n, used)
+    ren["\0steps"], ren["\0envs"] = smap, emap
     return ren
+
+
+def _is_step_name(path):
+    return len(path) == 3 and path[0] == "steps" and path[2] == "name"
+
+
+def _is_env_name(path):
+    return path and path[-1] == "name" and ((len(path) >= 3 and path[-3] in ("jobEnvironments", "stepEnvironments")) or path == ("environment", "name"))
 
 
 def rename_ref(ren, m):
@@ -171,6 +203,10 @@ def rename_doc(ren, doc):
         if path and path[-1] == "name" and ("parameterDefinitions" in path or "taskParameterDefinitions" in path or "embeddedFiles" in path) \
                 and not ("hostRequirements" in path):
             return ren.get(s, s)
+        if _is_step_name(path) or (path and path[-1] == "dependsOn"):
+            return ren.get("\0steps", {}).get(s, s)
+        if _is_env_name(path):
+            return ren.get("\0envs", {}).get(s, s)
         if is_fs_path(path):
             return REF.sub(lambda m: rename_ref(ren, m), s)
         return s
@@ -193,6 +229,10 @@ def rename_job(ren, obj):
                 return IDENT.sub(lambda m: ren.get(m.group(0), m.group(0)), x)
             if path and path[-1] == "name" and "embeddedFiles" in path:
                 return ren.get(x, x)
+            if _is_step_name(path) or (path and path[-1] == "dependsOn"):
+                return ren.get("\0steps", {}).get(x, x)
+            if _is_env_name(path):
+                return ren.get("\0envs", {}).get(x, x)
             if path and (path[-1] in ("command", "data") or (len(path) >= 2 and path[-2] in ("args", "variables"))):
                 return REF.sub(lambda m: rename_ref(ren, m), x)
             return x
@@ -231,7 +271,11 @@ class C19(core.PropBase):
             kind = "env" if i % 6 == 5 else "job"
             doc = G.gen_env_template(rng, full=rng.random() < 0.3) if kind == "env" else G.gen_job_template(rng, full=rng.random() < 0.3)
             ops = []
-            if rng.random() < 0.34:
+            if i % 10 == 9:
+                # rules that speak about NAMES (uniqueness, dependencies, clashes): their verdict must survive the renaming
+                # and the re-ordering of keys whatever the names are and however they sort
+                ops = [list(o) for o in M.mutate(rng, doc, n=1, only=["duplicate_name", "bad_dependency", "env_clash"])]
+            elif rng.random() < 0.34:
                 ops = [list(o) for o in M.mutate(rng, doc, n=rng.choice([1, 1, 2]))]
             try:
                 json.dumps(doc)
@@ -247,7 +291,7 @@ class C19(core.PropBase):
     def rule(self, tier):
         return ("generated job / environment templates, two thirds valid, one third with 1-2 rule-typed mutations; each is compared with 6 variants: keys "
                 "reversed at every level, keys shuffled, YAML re-encoding, JSON re-encoding, re-blanked ('{{ }}', range and combination tokens; spaces only), "
-                "injective length-preserving renaming of job parameters / task parameters / embedded files. Observables: accept/reject verdict of implementation "
+                "injective length-preserving renaming of job parameters / task parameters / embedded files / steps (with their dependsOn) / environments. Observables: accept/reject verdict of implementation "
                 "and of the acceptance model on both documents, and (accepted job templates) equality of model_to_object(create_job) up to the renaming. "
                 "distinct = by document")
 
